@@ -53,7 +53,7 @@ def ext_abs(e):
              'TlsExtensionNextProtocolNegotiationServer'):
         names = [list(p.value.code.encode('utf-8')) for p in e.protocol_names]
         if n == 'TlsExtensionNextProtocolNegotiationServer':
-            return None
+            return {'k': 'npn_server', 'type': t, 'names': names}
         return {'k': 'alpn', 'type': t, 'names': names}
     if n == 'TlsExtensionSupportedVersionsClient':
         return {'k': 'versions_client', 'type': t, 'codes': [code(v.version) if hasattr(v, 'version') else code(v) for v in e.supported_versions]}
@@ -83,6 +83,17 @@ def ext_abs(e):
              'TlsExtensionNextProtocolNegotiationClient', 'TlsExtensionServerNameServer', 'TlsExtensionChannelId',
              'TlsExtensionShortRecordHeader', 'TlsExtensionCertificateStatusRequestServer'):
         return {'k': 'empty', 'type': t}
+    if n == 'TlsExtensionCertificateStatusRequestClient':
+        return {'k': 'status_request', 'type': t, 'responders': [list(r) for r in e.responder_id_list],
+                'request_extensions': list(e.request_extensions)}
+    if n == 'TlsExtensionSignedCertificateTimestampServer':
+        scts = []
+        for x in e.scts:
+            ms = epoch(x.timestamp) * 1000 + x.timestamp.microsecond // 1000
+            scts.append({'version': int(x.version), 'log_id': list(x.log.log_id.value), 'timestamp_ms': digits(ms),
+                         'extensions': list(x.extensions), 'hash': code(x.signature_algorithm) >> 8,
+                         'sig': code(x.signature_algorithm) & 0xff, 'signature': list(x.signature)})
+        return {'k': 'sct', 'type': t, 'scts': scts}
     if n == 'TlsExtensionRecordSizeLimit':
         return {'k': 'record_size_limit', 'type': t, 'limit': e.record_size_limit}
     if n == 'TlsExtensionPskKeyExchangeModes':
@@ -120,6 +131,23 @@ def message_abs(o):
         return 'certificate', {'certificates': [list(c.certificate) for c in o.certificate_chain]}
     if n == 'TlsHandshakeServerHelloDone':
         return 'server_hello_done', {'x': 0}
+    if n == 'TlsHandshakeServerKeyExchange':
+        return 'server_key_exchange', {'params': list(o.param_bytes)}
+    if n == 'TlsHandshakeCertificateRequest':
+        sa = o.supported_signature_algorithms
+        return 'certificate_request', {'types': [int(x) for x in o.certificate_types], 'has_sig_algs': sa is not None,
+                                       'sig_algs': [code(x) for x in (sa or [])],
+                                       'authorities': [list(dn) for dn in o.certificate_authorities]}
+    if n == 'TlsHandshakeCertificateStatus':
+        return 'certificate_status', {'status_type': int(o.status_type), 'response': list(o.status)}
+    if n == 'TlsHandshakeHelloRetryRequest':
+        return 'hello_retry_request', {
+            'version': ver(o.protocol_version), 'session_id': list(o.session_id), 'cipher_suite': code(o.cipher_suite),
+            'compression_method': code(o.compression_method), 'extensions': [ext_generic(e) for e in o.extensions],
+            'random_is_hrr_value': bytes(o.random_bytes.compose()) == bytes([207, 33, 173, 116, 229, 154, 97, 17, 190, 29, 140, 2, 30, 101, 184, 145,
+                                                                             194, 162, 17, 22, 122, 187, 140, 94, 7, 158, 9, 226, 200, 168, 51, 156])}
+    if n == 'TlsApplicationDataMessage':
+        return 'application_data', {'data': list(o.data)}
     if n == 'SslRecord':
         m = o.message
         mn = type(m).__name__
